@@ -100,6 +100,15 @@ def make_variant(design, mname, N, kind, first, rng):
         m["insts"].append({"name": "zqbo", "kind": "single", "of": ["leaf", "E2"], "tag": tagbase,
                            "conns": {"x": ["bref", N, ["y"]], "y": ["bref", N, ["x"]]}})
         extras = [N, "zqbo"]
+    elif kind in ("arr", "pair"):
+        # a designer ARRAY / PAIR with the colliding name (it is dissolved into elements before later passes invent names)
+        if N in names:
+            return None
+        m["sigs"] += [["zqnet", 1], ["zqn2", 1]]
+        m["insts"].append({"name": N, "kind": "array" if kind == "arr" else "pair", "n": 2, "of": ["leaf", "E1"], "tag": tagbase,
+                           "conns": {"a": ["sig", "zqnet"], "b": ["sig", "zqn2"]}})
+        m["insts"].append({"name": "zqo3", "kind": "single", "of": ["leaf", "E1"], "tag": tagbase + 1, "conns": {"a": ["sig", "zqnet"], "b": ["sig", "zqn2"]}})
+        extras = ["zqnet", "zqn2", N, "zqo3"]
     elif kind == "port":
         # a designer PORT of a sub-module with the colliding name; every parent instance connects it
         if N in names or mname == d["top"]:
@@ -240,7 +249,7 @@ def run(ctx, rec):
     if ctx.nshards > 1:
         bases = bases[ctx.shard:: ctx.nshards]
     per_base = 8 if ctx.quick else 40
-    kinds = ["sig", "inst", "nc", "bun", "rename", "port"]
+    kinds = ["sig", "inst", "nc", "bun", "rename", "port", "arr", "pair"]
     bases = [(l + " (upper-case names)", upcase(d)) if k % 3 == 1 else (l, d) for k, (l, d) in enumerate(bases)]
     for label, base in bases:
         # the unrenamed base under M-name (clashes among invented names themselves)
